@@ -402,6 +402,19 @@ def huge_messages(rng, n=4):
         hdr = [0, 1, (total - 20) >> 8, (total - 20) & 255, 0x21, 0x12, 0xa4, 0x42] + [rng.randrange(256) for _ in range(12)]
         out.append({"bytes": hdr + body, "src": "huge message of %d bytes" % total,
                     "cutlist": [0, 1, 19, 20, 21, 24, 1000, 65535, total - 4, total - 1]})
+    # a small complete message followed by exactly 2^16 (and 2^16 +- 4) further bytes that are themselves a tiling
+    # of attributes: sizes that agree with the declared length modulo 2^16
+    small = [0, 1, 0, 8, 0x21, 0x12, 0xa4, 0x42] + [rng.randrange(256) for _ in range(12)] + [0x80, 0x22, 0, 4, 115, 116, 117, 110]
+    for extra in (65536, 65532, 65540)[:max(1, n - 2)]:
+        tail = []
+        left = extra
+        ty = 0x8001
+        while left > 0:
+            v = min(left - 4, 16380)
+            tail += [ty >> 8, ty & 255, v >> 8, v & 255] + [1] * v
+            left -= 4 + v
+            ty = 6
+        out.append({"bytes": small + tail, "src": "28-byte message followed by %d bytes of further attributes" % extra})
     return out
 
 
